@@ -222,8 +222,8 @@ where
     /// Divide this polynomial by another, getting a quotient and remainder, using tol to check for 0
     pub fn divide(&self, divisor: &Polynomial<N>) -> Result<(Self, Self), String> {
         if divisor.coefficients.len() == 1
-            && divisor.coefficients[0].real().abs() < self.tolerance
-            && divisor.coefficients[0].imaginary().abs() < self.tolerance
+            && divisor.coefficients[0].real().abs() <= self.tolerance
+            && divisor.coefficients[0].imaginary().abs() <= self.tolerance
         {
             return Err("Polynomial division: Can not divide by 0".to_owned());
         }
@@ -272,7 +272,11 @@ where
                 temp.coefficients.insert(0, N::zero());
             }
             // remainder -= temp x d;
+            let lead = remainder.coefficients.len() - 1;
             remainder -= &temp;
+            // The leading term cancels by construction: drop it even if rounding (or a
+            // zero tolerance) keeps it from looking negligible, or the loop does not advance
+            remainder.coefficients.truncate(lead);
             while remainder.coefficients.len() > 1
                 && remainder.coefficients.last().unwrap().real().abs() < self.tolerance
                 && remainder.coefficients.last().unwrap().imaginary().abs() < self.tolerance
